@@ -81,14 +81,14 @@ func runPkt(t *testing.T, prop, level string, quickCases, thoroughCases, ops int
 func TestC01(t *testing.T) {
 	runPkt(t, "C01", "exploration", 40, 60, 70, func(pr *Profile, o *SimOpts) {
 		pr.RecvDup, pr.Replay = 14, 14
-	}, map[string]int64{"cb_recv": 150, "accepted_recv_NOOP": 40, "rejected_hostile": 100})
+	}, map[string]int64{"cb_recv": 120, "accepted_recv_NOOP": 40, "rejected_hostile": 100})
 }
 
 func TestC02(t *testing.T) {
 	runPkt(t, "C02", "exploration", 40, 60, 70, func(pr *Profile, o *SimOpts) {
 		*o = SimOpts{Ordered: true, Unordered: true}
 		pr.OutOfOrder, pr.SoonPct = 12, 10
-	}, map[string]int64{"ordered_recv": 100, "ordered_ack": 50, "rejected_hostile": 60})
+	}, map[string]int64{"ordered_recv": 60, "ordered_ack": 30, "rejected_hostile": 60})
 }
 
 func TestC03(t *testing.T) {
@@ -124,13 +124,13 @@ func testC04Sim(t *testing.T) {
 func TestC05(t *testing.T) {
 	runPkt(t, "C05", "exploration", 40, 60, 70, func(pr *Profile, o *SimOpts) {
 		pr.Mutate, pr.Replay, pr.Close, pr.Redirect, pr.Boundary, pr.SoonPct = 30, 10, 1, 8, 10, 50
-	}, map[string]int64{"recv_matches_truth": 150, "mutants": 200, "rejected_recv": 100})
+	}, map[string]int64{"recv_matches_truth": 120, "mutants": 150, "rejected_recv": 100})
 }
 
 func TestC06(t *testing.T) {
 	runPkt(t, "C06", "exploration", 40, 60, 70, func(pr *Profile, o *SimOpts) {
 		pr.Mutate, pr.Ack, pr.AckDup = 30, 16, 8
-	}, map[string]int64{"ack_matches_truth_ack": 100, "mutants": 200, "rejected_ack": 50})
+	}, map[string]int64{"ack_matches_truth_ack": 100, "mutants": 120, "rejected_ack": 25})
 }
 
 func TestC08(t *testing.T) {
@@ -142,7 +142,7 @@ func TestC08(t *testing.T) {
 func TestC11(t *testing.T) {
 	runPkt(t, "C11", "exploration", 40, 60, 70, func(pr *Profile, o *SimOpts) {
 		pr.AsyncAck, pr.Replay = 16, 10
-	}, map[string]int64{"ack_writes_seen": 200})
+	}, map[string]int64{"ack_writes_seen": 100, "async_acks_written_v2": 5})
 }
 
 func TestC14(t *testing.T) {
